@@ -5022,7 +5022,6 @@ class Entity(object, metaclass=EntityMeta):
                 obj._status_ = status
                 for cache_index, old_key in undo_list: cache_index[old_key] = obj
 
-            undo_funcs.append(undo_func)
             try:
                 for attr in obj._attrs_:
                     if not attr.is_collection: continue
@@ -5056,6 +5055,9 @@ class Entity(object, metaclass=EntityMeta):
                             reverse.reverse_remove((val,), obj, undo_funcs)
                         else: throw(NotImplementedError)
 
+                # the object itself is changed (and queued) only now, after the dependent objects: its undo is registered here, so that
+                # undo functions run in the reverse order of the changes made to the save queue
+                undo_funcs.append(undo_func)
                 cache_indexes = cache.indexes
                 for attr in obj._simple_keys_:
                     val = get_val(attr)
